@@ -21,14 +21,26 @@ RULE = ("for every constructor registered in the working tree (enumerated by ref
         "member, vectors of 255..3000 elements (thorough: up to 10000) of every element kind, message containers (incl. "
         "members with empty bodies in every position but the last); plus byte strings on both sides of every header boundary. Each value is "
         "marshalled, decoded by name and by constructor id by the real code and by the Lean model (outputs "
-        "compared), and judged by the round-trip law itself. distinct = distinct operation lines")
+        "compared), and judged by the round-trip law itself. Canonical form is taken from the SCHEMA (schemes/api_latest.tl of the "
+        "working tree, own reader in the harness): which conditional fields form a group and which booleans are bare flag bits is "
+        "read from the schema line of each constructor, values are generated and judged canonical with respect to those groups "
+        "(struct tags only for types the schema does not define), every flag group of every constructor present alone and absent "
+        "alone; 128/256-bit integer fields with 0, 1, all ones, 1 / 2 / 8 / 16 / all-but-one leading zero bytes on every run. "
+        "c01.sdec: for EVERY constructor and function of the schema (not only those the registry lists) bytes written from its "
+        "schema line (smallest value, all conditional parameters present, random flag bits with random values) are decoded by "
+        "constructor id and must give a value of that constructor that serialises back to them. c01.reg: the number of distinct "
+        "registered ids equals the number of objects and enum members handed to tl.RegisterObjects / tl.RegisterEnums in the "
+        "sources, and every struct handed over is the type of some id. distinct = distinct operation lines")
 
 
 def run(ctx):
     ctx.assumptions += [
         "Go's reflect package behaves as documented (the model describes what the codec does through reflect, not reflect itself)",
         "values outside the domain (nil mandatory pointer/interface, integer wider than its field, a bitflag bool that "
-        "disagrees with the presence of its group, -0.0 in a conditional double) are generated but not judged",
+        "disagrees with the presence of its group - groups as the schema defines them -, -0.0 in a conditional double) are generated but not judged",
+        "the harness' reader of schemes/api_latest.tl and its writer of schema bytes (c01schema.go) are trusted; parameters of a "
+        "schema line correspond in order to the struct fields the codec does not ignore (C13 proves that for the unchanged tree); "
+        "c01.reg reads the registration sites with go/parser (calls tl.RegisterObjects / tl.RegisterEnums outside tests and testdata)",
     ]
     return vlib.generic_check(ctx, SUB, MODULES, THEOREMS, RULE, gen_hook=tlgen.regen_registry)
 
